@@ -508,7 +508,30 @@ func GenCFF(t *tape.Tape, n int, cidKeyed bool) *cff.Outlines {
 	if !cidKeyed {
 		o.Private = []*type1.PrivateDict{genPrivate(t)}
 		o.FDSelect = func(glyph.ID) int { return 0 }
-		switch t.Weighted(3, 3, 1) {
+		switch t.Weighted(3, 3, 1, 1) {
+		case 3:
+			// a proper subset of the standard encoding: some glyphs with
+			// standard names are left unencoded
+			// (the writer wants the encoded glyphs to be 1..k without gaps)
+			enc := cff.StandardEncoding(o.Glyphs)
+			encoded := map[glyph.ID]bool{}
+			for _, g := range enc {
+				encoded[g] = true
+			}
+			k0 := 0 // glyphs 1..k0 all have a standard code
+			for k0+1 < n && encoded[glyph.ID(k0+1)] {
+				k0++
+			}
+			k := glyph.ID(0)
+			if k0 > 0 {
+				k = glyph.ID(t.Range(1, k0))
+			}
+			for code := range enc {
+				if enc[code] > k {
+					enc[code] = 0
+				}
+			}
+			o.Encoding = enc
 		case 0:
 			o.Encoding = cff.StandardEncoding(o.Glyphs)
 		case 1:
@@ -639,10 +662,19 @@ func GenMeta(t *tape.Tape, f *sfnt.Font) {
 	if t.Chance(1, 2) {
 		f.Description = "generated by the simulator"
 		f.SampleText = "Hamburgefonts żółć"
+		if t.Chance(1, 4) {
+			// characters beyond the Basic Multilingual Plane (UTF-16
+			// surrogate pairs in the name table)
+			f.SampleText = "Hamburgefonts \U0001F600 \U00020BB7"
+			f.Description = "generated \U0001D11E by the simulator"
+		}
 	}
 	if t.Chance(1, 2) {
 		f.Copyright = "(c) 2026 nobody"
 		f.Trademark = "no trademark"
+		if t.Chance(1, 6) {
+			f.Copyright = "\u00a9 2026 \U00010348 nobody"
+		}
 	}
 	if t.Chance(1, 3) {
 		f.License = "free"
